@@ -16,7 +16,7 @@ E1 = {
     "C12": (["contracts.c12"], ["PDAG.to_dag"]),
     "C13": (["contracts.c13"], ["DAG.do", "CausalInference.is_valid_backdoor_adjustment_set", "CausalInference.get_all_backdoor_adjustment_sets",
                                  "CausalInference.is_valid_frontdoor_adjustment_set", "CausalInference.get_all_frontdoor_adjustment_sets"]),
-    "C14": (["contracts.c14"], ["BayesianNetwork.to_markov_model", "UndirectedGraph.is_clique"]),
+    "C14": (["contracts.c14"], ["BayesianNetwork.to_markov_model", "UndirectedGraph.is_clique", "FactorGraph.to_markov_model"]),
     "C15": (["contracts.c15"], ["BayesianNetwork.add_edge", "BayesianNetwork.remove_node", "BayesianNetwork.copy", "MarkovNetwork.add_edge",
                                  "DynamicBayesianNetwork.add_edge", "DAG.add_edges_from", "BayesianNetwork.get_cpds", "BayesianNetwork.add_cpds",
                                  # wrapper lemmas: the networkx shortcut the library model takes for these methods is their exact effect
